@@ -1,5 +1,6 @@
 import KitProofs.Lemmas.RunnerTrace
 import KitProofs.Lemmas.RunnerSim
+import KitProofs.Lemmas.RunnerGraceInt
 /-!
 # C12 — runner / closer managers: the property theorems
 
@@ -778,5 +779,70 @@ example : ∃ t, Sim.Reached (rcmSim {}) {}
             (by simp) rfl)
           (by decide) rfl) (by decide) rfl) (by decide) rfl) (by decide) rfl) (by decide) rfl)
       (by decide) rfl) (by decide) rfl) (by decide) rfl) rfl (by simp) rfl⟩
+
+/-! ### The grace period as Go passes it: any `time.Duration`, also zero and negative
+
+`Cfg.ofGoGrace : Option Int → Cfg` (`Lemmas/RunnerGraceInt.lean`) is the configuration of
+`NewRunnerCloserManager(log, gracePeriod, …)` for a nil pointer (`none`) and for **every** signed
+duration. A timer created with a duration ≤ 0 has its deadline at the instant of its creation. -/
+
+/-- **fatal_iff_over_grace_int.** `fatal_iff_over_grace` for every Go grace period `g : Option Int`
+(nil, negative, zero, positive), plus what the sign of `g` adds: nil ⇒ the action never fires and no
+watchdog is ever armed; `g ≤ 0` ⇒ every deadline that exists has already been reached (the period
+has expired the moment the timer is created), the watchdog never parks in its `select`, and every
+recorded decision saw an expired timer. (For `g > 0`, `Cfg.ofGoGrace_pos`: the model's period is
+exactly `g`.) -/
+theorem fatal_iff_over_grace_int (g : Option Int) {s : RCM} (hr : RCM.Reach (Cfg.ofGoGrace g) s) :
+    (∀ d, s.decision = some d →
+        (d.fire = true → d.expired = true) ∧ (d.fire = false → d.closed = true) ∧
+        (d.expired = true ∧ d.closed = false → d.fire = true) ∧ (d.expired = false → d.fire = false)) ∧
+    (s.fired = true → ∃ dl, s.deadline = some dl ∧ dl ≤ s.now) ∧
+    (g = none → s.fired = false ∧ s.decision = none ∧ s.fpc = .idle) ∧
+    (∀ x : Int, g = some x → x ≤ 0 →
+        (∀ dl, s.deadline = some dl → dl ≤ s.now) ∧ (∀ dl, s.fpc ≠ .parked dl) ∧
+        (∀ d, s.decision = some d → d.expired = true)) := by
+  have h := fatal_iff_over_grace hr
+  have inv := RCM.inv_of_reach hr
+  refine ⟨h.1, fun hf => (h.2.1 hf).1, ?_, ?_⟩
+  · intro hg; subst hg
+    have := h.2.2.2 rfl
+    exact ⟨this.1, this.2, inv.b.no_grace rfl⟩
+  · intro x hx hle; subst hx
+    have hz := RCM.invZ_of_reach (Cfg.ofGoGrace_nonpos hle) hr
+    refine ⟨hz, ?_, ?_⟩
+    · intro dl hp
+      have := inv.c.parked_dl dl hp
+      have := hz dl this.1
+      omega
+    · intro d hd
+      exact RCM.dec_expired_of_invZ (Cfg.ofGoGrace_nonpos hle) hr d hd
+
+/-- **fatal_fires_when_grace_nonpos.** Grace period ≤ 0 (0 s, −1 ns, −1 s, `MinInt64`): as soon as
+the watchdog's timer exists, while some user closer has not been collected, its `select` cannot
+take the quiet branch and cannot park — firing is the only move, with no clock step at all. (The
+*if* direction of "fires iff the closers outlast the grace period" at and below zero.) -/
+theorem fatal_fires_when_grace_nonpos {x : Int} (hx : x ≤ 0) {s : RCM}
+    (hr : RCM.Reach (Cfg.ofGoGrace (some x)) s) (dl : Nat) (hf : s.fpc = .armed dl)
+    (j : Nat) (p : CPc) (hp : s.cpcs[j]? = some p) (hrun : p.isCollected = false) :
+    s.step (Cfg.ofGoGrace (some x)) .fenterStop = none ∧ s.step (Cfg.ofGoGrace (some x)) .fpark = none ∧
+      (s.step (Cfg.ofGoGrace (some x)) .fenterFire).isSome = true := by
+  have inv := RCM.inv_of_reach hr
+  have hz := RCM.invZ_of_reach (Cfg.ofGoGrace_nonpos hx) hr
+  exact fatal_fires_when_over_grace hr dl hf (hz dl (inv.c.armed_dl dl hf)) j p hp hrun
+
+/-- A non-nil grace period of any sign installs the watchdog: it is a registered closer
+(`Cfg.off = 1`), whereas nil installs none. -/
+theorem watchdog_installed_iff_grace_non_nil (g : Option Int) :
+    ((Cfg.ofGoGrace g).off = 1 ↔ g ≠ none) ∧ ((Cfg.ofGoGrace g).off = 0 ↔ g = none) := by
+  cases g <;> simp [Cfg.ofGoGrace, Cfg.off]
+
+/-- Grace period −1 s, one closer that blocks: the action fires without any clock step and `Run`
+returns only afterwards (a reachable run; no `tick` label occurs in it). -/
+example : ∃ s, RCM.Reach (Cfg.ofGoGrace (some (-1000000000))) s ∧ s.fired = true ∧ s.opc = .returned ∧
+    s.now = 0 :=
+  ⟨_, RCM.reach_runLabels [.acCall, .acCheck, .acAppend, .acRetOk, .runCall, .runCas, .prepare,
+      .launch, .inner .runCas, .inner .runRet, .gotInner, .lockClosing, .cspawn, .cspawn, .farm,
+      .cstart 0, .fenterFire, .ffire, .fcollect, .cret 0 none, .closeFatal, .ccollect 0,
+      .finish, .runRet] rfl, rfl, rfl, rfl⟩
 
 end Kit.Runner
